@@ -34,7 +34,8 @@ fn parity_i128() {
     let even = is_even(Number::Integer(u), kw.clone(), &st);
     assert!(matches!(odd, Ok(b) if b == odd_bit(u)));
     assert!(matches!(even, Ok(b) if b == !odd_bit(u)));
-    std::mem::forget((odd, even, kw, st, ctx));
+    std::mem::forget((odd, even, kw, st));
+    std::mem::forget(ctx);
 }
 
 // The same through the conversion the VM applies to the receiver (`Number::from_value`) for the
@@ -55,7 +56,8 @@ fn parity_u64_i64() {
     let n = <Number as ArgFromValue>::from_value(&Value::from(y)).unwrap();
     assert!(matches!(is_odd(n, kw.clone(), &st), Ok(b) if b == ((y as u64) & 1 == 1)));
     assert!(matches!(is_even(n, kw.clone(), &st), Ok(b) if b == ((y as u64) & 1 == 0)));
-    std::mem::forget((kw, st, ctx));
+    std::mem::forget((kw, st));
+    std::mem::forget(ctx);
 }
 
 // u128 receivers up to i128::MAX.  KEPT OUT: u128 values above i128::MAX -- `Number::from_value`
@@ -75,7 +77,8 @@ fn parity_u128_in_i128_range() {
     let n = <Number as ArgFromValue>::from_value(&v).unwrap();
     assert!(matches!(is_odd(n, kw.clone(), &st), Ok(b) if b == (x & 1 == 1)));
     assert!(matches!(is_even(n, kw.clone(), &st), Ok(b) if b == (x & 1 == 0)));
-    std::mem::forget((v, kw, st, ctx));
+    std::mem::forget((v, kw, st));
+    std::mem::forget(ctx);
 }
 
 // Floats: the documentation only says "true if the given variable is an odd/even number"; the
@@ -97,7 +100,8 @@ fn parity_float_is_error() {
     let even = is_even(n, kw.clone(), &st);
     assert!(odd.is_err());
     assert!(even.is_err());
-    std::mem::forget((odd, even, kw, st, ctx));
+    std::mem::forget((odd, even, kw, st));
+    std::mem::forget(ctx);
 }
 
 // ---------------------------------------------------------------------------------------------
@@ -177,7 +181,8 @@ fn type_tests_partition_scalars() {
         _ => (Value::from(kani::any::<f64>()), Cls::Float),
     };
     check_type_tests(&v, c, &kw, &st);
-    std::mem::forget((v, kw, st, ctx));
+    std::mem::forget((v, kw, st));
+    std::mem::forget(ctx);
 }
 
 // killed by: is_iterable without `val.is_string()`; is_string `val.is_string() || val.is_bytes()`
@@ -206,7 +211,8 @@ fn type_tests_partition_containers() {
         _ => (Value::from(crate::value::ValueInner::Map(Arc::new(crate::value::Map::new()))), Cls::Map),
     };
     check_type_tests(&v, c, &kw, &st);
-    std::mem::forget((v, kw, st, ctx));
+    std::mem::forget((v, kw, st));
+    std::mem::forget(ctx);
 }
 
 // ---------------------------------------------------------------------------------------------
@@ -244,7 +250,8 @@ fn divisible_by_total_and_edges() {
     } else if u.unsigned_abs() < d.unsigned_abs() {
         assert!(!got);
     }
-    std::mem::forget((res, kw, st, ctx));
+    std::mem::forget((res, kw, st));
+    std::mem::forget(ctx);
 }
 
 // Exact divisibility of the mathematical values on a reduced domain.
@@ -262,7 +269,8 @@ fn divisible_by_exact_i16() {
     // oracle on the magnitudes, in 32-bit unsigned arithmetic
     let want = d != 0 && (u.unsigned_abs() as u32) % (d.unsigned_abs() as u32) == 0;
     assert!(matches!(res, Ok(b) if b == want));
-    std::mem::forget((res, kw, st, ctx));
+    std::mem::forget((res, kw, st));
+    std::mem::forget(ctx);
 }
 
 // Full-width exact divisibility against an independent magnitude oracle (two 128-bit dividers:
@@ -279,7 +287,8 @@ fn divisible_by_exact_i128() {
     let res = is_divisible_by(Number::Integer(u), kw.clone(), &st);
     let want = d != 0 && u.unsigned_abs() % d.unsigned_abs() == 0;
     assert!(matches!(res, Ok(b) if b == want));
-    std::mem::forget((res, kw, st, ctx));
+    std::mem::forget((res, kw, st));
+    std::mem::forget(ctx);
 }
 
 // killed by: `Number::Float(u) => Ok(u % (divisor as f64) == 0.0)`
@@ -296,5 +305,6 @@ fn divisible_by_float_is_error() {
     let kw = divisor_kwargs(d);
     let res = is_divisible_by(Number::Float(f), kw.clone(), &st);
     assert!(res.is_err());
-    std::mem::forget((res, kw, st, ctx));
+    std::mem::forget((res, kw, st));
+    std::mem::forget(ctx);
 }
